@@ -1,7 +1,7 @@
 #!/bin/sh
 # Builds the harness once and warms the go1.26.8 build caches (normal and -race)
 # into /verif/.gocache. Offline; uses only files on disk.
-cd /verif || exit 2
+cd "$(dirname "$0")" || exit 2
 export GOFLAGS=-mod=mod GOPROXY=off GOSUMDB=off GOTOOLCHAIN=local
 export GOCACHE=/verif/.gocache
 GO=/opt/veriftools/go1.26.8/bin/go
